@@ -16,7 +16,7 @@ URIS = ["http://a/", "http://a/b/", "http://other/", "urn:x:", "http://a/#", "ht
 # only: in PROV-XML the XML Schema namespace *is* declared without '#', so a document that also uses that URI as a namespace of
 # its own is not XML-expressible (C02/C10 do not cover it; see DESIGN A.6)
 HASHLESS_BUILTINS = ["http://www.w3.org/2001/XMLSchema", "http://www.w3.org/ns/prov"]
-LOCALS = ["x", "y", "e1", "e2", "a1", "ag", "a/b", "a.b", "x-1", "u_v", "b1", "Z9", "run:42", "urn:isbn:0451"]   # (a local part may itself contain colons)
+LOCALS = ["x", "y", "e1", "e2", "a1", "ag", "a/b", "a.b", "x-1", "u_v", "b1", "Z9", "run:42", "urn:isbn:0451", "report%20v2"]   # (a local part may itself contain colons)
 KINDS = [k.localpart for k in PROV_REC_CLS]
 ELEMENT_KINDS = ["Entity", "Activity", "Agent"]
 RELATION_KINDS = [k for k in KINDS if k not in ELEMENT_KINDS]
@@ -30,8 +30,11 @@ STRINGS = ["", "a", "hello world", 'say "hi"', "line1\nline2", "tab\there", "caf
            # not in Unicode normal form C (combining marks, a compatibility character, conjoining jamo): kept as given
            "Cafe\u0301 de\u0301compose\u0301", "\u212bngstro\u0308m", "\u1100\u1161\u11a8", "\tpadded\n ",
            # line and paragraph separators other than LF/CR (str.splitlines() breaks at them, XML 1.0 and JSON do not)
-           "line\u2028separator, paragraph\u2029separator, next\u0085line"]
-LANGS = ["en", "fr", "en-GB"]
+           "line\u2028separator, paragraph\u2029separator, next\u0085line",
+           # legal characters that str.isprintable() calls unprintable (no-break and ideographic space, joiners, soft hyphen, a
+           # bidi mark, a private-use character): part of the value like any other
+           "no\u00a0break \u3000ideographic", "\u0646\u0645\u06cc\u200c\u062e\u0648\u0627\u0647\u0645 zw\u200dj", "soft\u00adhyphen \u200emark \ue000private"]
+LANGS = ["en", "fr", "en-GB", "x-klingon", "en-u-ca-gregory"]   # (private-use and extension subtags: one-letter singletons)
 FOREIGN_TYPES = [("ex", "http://a/", "mytype"), ("xsd", XSD.uri, "decimal"), ("xsd", XSD.uri, "gYear"),
                  ("xsd", XSD.uri, "short"), ("foo", "http://other/", "T"),
                  # one spelling, another URI: what 'ex:mytype' / 'foo:T' means depends on who declares the prefix
